@@ -291,6 +291,12 @@ func c14(r *core.Report) {
 		}
 	}
 
+	// ---- C14-COMMIT (shared with C13): the layers below recycle their receive buffer as
+	// soon as the hub's Deliver returns, so Deliver must not return success before the
+	// callback has finished with the message
+	r.Rule("C14-COMMIT", "hub Deliver returns success only after the callback finished (buffer ownership hand-back)", 8)
+	ruleCommit(r, h, "C14-COMMIT")
+
 	// ---- C14-FREELIST
 	r.Rule("C14-FREELIST", "queue buffers: back to the freelist only after the callback, zeroed; payload rebuilt from length 0 before queueing", 3)
 	{
